@@ -276,12 +276,12 @@ Proof.
   - apply qcl_eqb_eq. reflexivity.
 Qed.
 
-(* equal grids and the final time: the last stored level itself (no interpolation), then the observation map,
-   then squeeze *)
+(* equal grids and the final time: the last stored level itself (no interpolation), then the observation map;
+   nothing is squeezed -- `solution[..., -1]` has no time axis left (one observed node stays a 1-vector) *)
 Theorem observe_restriction G times T levels u :
   g_eq G = true -> last_opt times = Some T -> last_opt levels = Some u ->
   td_observe Q obsmap interp2 G times [T] levels =
-    match apply_obsmap obsmap (A1 u) with Ok b => Ok (false, squeeze b) | Er e => Er e end.
+    match apply_obsmap obsmap (A1 u) with Ok b => Ok (false, b) | Er e => Er e end.
 Proof.
   intros Hg HT Hu. unfold td_observe. rewrite Hg, (time_test_final _ _ HT), Hu. cbn [andb orb negb length Nat.eqb].
   destruct (apply_obsmap obsmap (A1 u)); reflexivity.
